@@ -298,6 +298,12 @@ struct Engine {
             for (size_t i = 0; i < args.size(); i++)
                 dom.push_back(Z.real_sort());
             it = ufs.emplace(key, Z.function(name.c_str(), dom, Z.real_sort())).first;
+            if (name == "EXP" && args.size() == 1) {
+                // formula level: the double nearest to e stands for e (compilers fold exp(1.0) to that literal)
+                z3::expr_vector one(Z);
+                one.push_back(Z.real_val(1));
+                addPC(it->second(one) == realOfDouble(M_E));
+            }
         }
         z3::expr_vector av(Z);
         for (auto &a : args)
@@ -698,6 +704,8 @@ struct Engine {
                 }
             }
         }
+        if (r == z3::unknown && g_arithUsed)
+            r = splitCheck(wantModel, 0);
         S->pop();
         if (r == z3::sat) st.sat++; else if (r == z3::unsat) st.unsat++;
         double dt = std::chrono::duration<double>(std::chrono::steady_clock::now() - t0).count();
@@ -707,6 +715,81 @@ struct Engine {
         if (r == z3::unknown)
             throw PathEnd{"inconclusive", "solver unknown"};
         return r;
+    }
+    // last resort for a nonlinear integer query the solvers give up on: a case split, inside the solver call, over all values of one
+    // bounded integer input occurring in a nonlinear term (the sub-queries are linear in that variable).  Sound both ways: sat if
+    // some case is sat, unsat only if every case is unsat.
+    uint64_t splitChecks = 0;
+    void nonlinearVars(const z3::expr &e, std::set<unsigned> &seen, std::map<unsigned, z3::expr> &out, bool under)
+    {
+        if (!e.is_app())
+            return;
+        if (!seen.insert(e.id() * 2 + (under ? 1 : 0)).second)
+            return;
+        Z3_decl_kind k = e.decl().decl_kind();
+        unsigned n = e.num_args();
+        if (n == 0) {
+            if (under && k == Z3_OP_UNINTERPRETED && e.get_sort().is_int() && bounds.count(e.id()))
+                out.emplace(e.id(), e);
+            return;
+        }
+        bool nl = under;
+        if (k == Z3_OP_MUL) {
+            unsigned nonnum = 0;
+            for (unsigned i = 0; i < n; i++)
+                if (!e.arg(i).is_numeral())
+                    nonnum++;
+            if (nonnum >= 2)
+                nl = true;
+        } else if (k == Z3_OP_MOD || k == Z3_OP_REM || k == Z3_OP_IDIV || k == Z3_OP_DIV || k == Z3_OP_POWER)
+            nl = true;
+        for (unsigned i = 0; i < n; i++)
+            nonlinearVars(e.arg(i), seen, out, nl);
+    }
+    z3::check_result splitCheck(bool wantModel, int depth)
+    {
+        std::set<unsigned> seen;
+        std::map<unsigned, z3::expr> vars;
+        for (const z3::expr &a : S->assertions())
+            nonlinearVars(a, seen, vars, false);
+        const z3::expr *best = nullptr;
+        mpz_class bw = 0, blo = 0;
+        for (auto &kv : vars) {
+            auto &b = bounds.at(kv.first);
+            mpz_class w = b.hi - b.lo + 1;
+            if (w <= 1 || w > 600)
+                continue;
+            // skip variables already fixed by an equation at this level
+            if (!best || w < bw) {
+                best = &kv.second;
+                bw = w;
+                blo = b.lo;
+            }
+        }
+        if (!best)
+            return z3::unknown;
+        splitChecks++;
+        bool anyUnknown = false;
+        z3::expr var = *best;
+        unsigned id = var.id();
+        auto saved = bounds.at(id);
+        for (mpz_class v = blo; v < blo + bw; v++) {
+            S->push();
+            S->add(var == Z.int_val(v.get_str().c_str()));
+            bounds.at(id).lo = bounds.at(id).hi = v;
+            z3::check_result r = S->check();
+            if (r == z3::unknown && depth < 1)
+                r = splitCheck(wantModel, depth + 1);
+            else if (r == z3::sat && wantModel)
+                mdl.reset(new z3::model(S->get_model()));
+            S->pop();
+            bounds.at(id) = saved;
+            if (r == z3::sat)
+                return r;
+            if (r == z3::unknown)
+                anyUnknown = true;
+        }
+        return anyUnknown ? z3::unknown : z3::unsat;
     }
     bool feasible(const z3::expr &c)
     {
@@ -2540,6 +2623,17 @@ static std::string runPath(Engine &E, const RunCfg &rc, const std::vector<Engine
         }
     } catch (PathEnd &p) {
         end = p;
+        if (end.kind == "inconclusive" && getenv("SYMX_WHERE")) {
+            end.msg += " @";
+            for (size_t i = E.stack.size(); i-- > 0 && i + 6 > E.stack.size();)
+                end.msg += " <- " + demangle(E.stack[i].f->getName().str()).substr(0, 60);
+            try {
+                bool ok;
+                for (auto &kv : E.inputModel(ok))
+                    end.msg += " " + kv.first + "=" + kv.second;
+            } catch (...) {
+            }
+        }
     } catch (z3::exception &ex) {
         end = PathEnd{"inconclusive", std::string("z3: ") + ex.msg()};
     } catch (std::exception &ex) {
